@@ -6,6 +6,8 @@ import (
 	"sort"
 	"strings"
 
+	"go.uber.org/dig"
+
 	"verif/harness/pool"
 )
 
@@ -17,9 +19,11 @@ type producer struct {
 }
 
 // fill sets dst (of a declared result type) and advances the slot counter.
-// Leaves are: every universe type, and every non-struct composite type.
-// Composite structs are flattened field by field whatever their embedding or
-// exportedness; values below an unexported field are counted but not set.
+// Leaves are: every universe type, every non-struct composite type, and every
+// struct that is not a result object (a plain struct is one value to dig: it is
+// left zero, like the model's value of a type outside the universe).
+// Result objects are flattened field by field whatever their exportedness;
+// values below an unexported field are counted but not set.
 func (p *producer) fill(dst reflect.Value, settable bool) {
 	t := dst.Type()
 	if id, ok := pool.ID(t); ok {
@@ -30,13 +34,13 @@ func (p *producer) fill(dst reflect.Value, settable bool) {
 		}
 		return
 	}
-	if t.Kind() == reflect.Struct {
+	if t.Kind() == reflect.Struct && dig.IsOut(t) {
 		for i := 0; i < t.NumField(); i++ {
 			p.fill(dst.Field(i), settable && t.Field(i).PkgPath == "")
 		}
 		return
 	}
-	p.slot++ // composite pointer: nil
+	p.slot++ // composite pointer: nil; plain struct: zero
 }
 
 func (p *producer) leaf(t reflect.Type, id, slot int) reflect.Value {
@@ -134,6 +138,9 @@ func (r *run) render(v reflect.Value) string {
 		}
 		if t == pool.InType || t == pool.OutType {
 			return fmt.Sprintf(`{"zero":%d}`, r.ts.id(t))
+		}
+		if !dig.IsIn(t) && !dig.IsOut(t) && v.IsZero() {
+			return fmt.Sprintf(`{"zero":%d}`, r.ts.id(t)) // a plain struct is a single value
 		}
 		var fields []string
 		for i := 0; i < t.NumField(); i++ {
